@@ -72,7 +72,7 @@ def run_c01(res, rng):
         return [l if l.startswith('K ') else 'N ' + l.split()[1] for l in lines if l.startswith(('K ', 'N '))] + anomalies(lines)
     correspondence(res, cases, proj, G.judge_c01, 'encode-then-decode')
     res.cov['rule'] = ('batches from one splitmix64 stream: 1-6 (quick) / 1-12 (thorough) packets over all payload kinds, lengths aimed at cap-16+-2, k*(cap-16)+-1, 1..3, 65535; '
-                       'max in {25,26,33,40,41,64,100,256,1500,65559,random} plus {65535..65561, 65600, 80000, 131072, 200000} with frame-filling packets and with several large packets aggregated into frames longer than 65535 bytes; batches handed over as vector / shared_ptr vector / list / deque (17-40 packets, crossing the blocks of the deque) / reverse iterators; batches whose packets had their payload edited in place (grown past the frame / shrunk) after the packet took it over; batches encoded after 65531..65535 earlier frames so that segment chains straddle the counter wrap; frames that aggregate exactly 255 / 256 / 257 (thorough: up to 65537) small messages followed by a packet that does not fit the rest, and batches of 257 one-frame packets;, min in {0,8,24,used-1,used,used+1,max-1,max,random}; plus all batches of <=2 (quick) / <=3 (thorough) packets over boundary lengths x {data,status} x 4 frame sizes x min in {0,max}. '
+                       'max in {25,26,33,40,41,64,100,256,1500,65559,random} plus {65535..65561, 65600, 80000, 131072, 200000} with frame-filling packets and with several large packets aggregated into frames longer than 65535 bytes; batches handed over as vector / shared_ptr vector / list / deque (17-40 packets, crossing the blocks of the deque) / reverse iterators; batches whose packets had their payload edited in place (grown past the frame / shrunk) after the packet took it over; batches encoded after 65531..65535 earlier frames so that segment chains straddle the counter wrap; frames that aggregate exactly 255 / 256 / 257 (thorough: up to 4096) small messages followed by a packet that does not fit the rest, and batches of 257 one-frame packets;, min in {0,8,24,used-1,used,used+1,max-1,max,random}; plus all batches of <=2 (quick) / <=3 (thorough) packets over boundary lengths x {data,status} x 4 frame sizes x min in {0,max}. '
                        'non-trivial = distinct (ctx, type/length profile) whose batch is segmented or aggregates >= 2 packets')
     res.cov['distinct_nontrivial'] = nontrivial(cases)
     res.cov['input_distribution'] = dist_stats(cases)
